@@ -5,6 +5,7 @@ package main
 
 import (
 	"fmt"
+	"go/token"
 	"go/types"
 	"os"
 	"path/filepath"
@@ -18,10 +19,10 @@ import (
 )
 
 const (
-	repoDir   = "/repo"
-	verifDir  = "/verif"
-	modPath   = "github.com/dtn7/dtn7-go"
-	buildTag  = "verif"
+	repoDir  = "/repo"
+	verifDir = "/verif"
+	modPath  = "github.com/dtn7/dtn7-go"
+	buildTag = "verif"
 )
 
 func fatalf(f string, a ...interface{}) {
@@ -86,6 +87,14 @@ func loadProgram(pkgPaths []string) *Program {
 	}
 	pats := append([]string{}, pkgPaths...)
 	pats = append(pats, verifPkg)
+	if os.Getenv("GOSYM_FULLLOAD") == "" {
+		// Only the packages that are interpreted from source need syntax: they are the roots of the load; everything
+		// else (badger, net/http, protobuf, ...) is loaded from the compiler's export data, which is several times
+		// cheaper than type-checking the whole dependency closure from source in every worker.
+		cfg.Mode = packages.NeedName | packages.NeedFiles | packages.NeedCompiledGoFiles | packages.NeedImports |
+			packages.NeedTypes | packages.NeedTypesSizes | packages.NeedSyntax | packages.NeedTypesInfo
+		pats = interpretedClosure(cfg, pats)
+	}
 	initial, err := packages.Load(cfg, pats...)
 	if err != nil {
 		fatalf("packages.Load: %v", err)
@@ -96,13 +105,53 @@ func loadProgram(pkgPaths []string) *Program {
 			if strings.HasPrefix(p.PkgPath, modPath) {
 				fmt.Fprintf(os.Stderr, "load error: %v\n", e)
 				nerr++
+			} else if os.Getenv("GOSYM_LOADERRS") != "" {
+				fmt.Fprintf(os.Stderr, "load error in %s: %v\n", p.PkgPath, e)
 			}
 		}
 	})
 	if nerr > 0 {
 		fatalf("the repository (with the harness overlay) does not type-check: %d errors", nerr)
 	}
-	prog, pkgs := ssautil.AllPackages(initial, ssa.InstantiateGenerics)
+	var prog *ssa.Program
+	var pkgs []*ssa.Package
+	if os.Getenv("GOSYM_FULLLOAD") != "" {
+		prog, pkgs = ssautil.AllPackages(initial, ssa.InstantiateGenerics)
+	} else {
+		// as ssautil.AllPackages, but only the roots (the interpreted packages) are built from syntax; the other
+		// packages were type-checked without function bodies and become body-less SSA packages
+		isRoot := map[*packages.Package]bool{}
+		for _, ip := range initial {
+			isRoot[ip] = true
+		}
+		var fset *token.FileSet
+		if len(initial) > 0 {
+			fset = initial[0].Fset
+		}
+		prog = ssa.NewProgram(fset, ssa.InstantiateGenerics)
+		packages.Visit(initial, nil, func(p *packages.Package) {
+			if p.Types == nil || p.IllTyped && isRoot[p] {
+				return
+			}
+			if isRoot[p] && p.TypesInfo != nil {
+				pkgs = append(pkgs, prog.CreatePackage(p.Types, p.Syntax, p.TypesInfo, true))
+			} else {
+				prog.CreatePackage(p.Types, nil, nil, true)
+			}
+		})
+	}
+	if os.Getenv("GOSYM_LOADERRS") != "" {
+		for _, sp := range prog.AllPackages() {
+			func() {
+				defer func() {
+					if r := recover(); r != nil {
+						fmt.Fprintf(os.Stderr, "ssa build of %s panicked: %v\n", sp.Pkg.Path(), r)
+					}
+				}()
+				sp.Build()
+			}()
+		}
+	}
 	prog.Build()
 	p := &Program{prog: prog, pkgs: map[string]*ssa.Package{}, overlay: ov}
 	for _, sp := range pkgs {
@@ -341,4 +390,31 @@ func (in *Interp) restoreGlobals() {
 		}
 		*cell = zero(deref(g.Type()))
 	}
+}
+
+// interpretedClosure returns the interpretable packages among the transitive imports of the given packages (plus
+// runtime, whose unexported error type the interpreter needs).
+func interpretedClosure(cfg *packages.Config, pats []string) []string {
+	c2 := *cfg
+	c2.Mode = packages.NeedName | packages.NeedImports | packages.NeedDeps
+	initial, err := packages.Load(&c2, pats...)
+	if err != nil {
+		fatalf("packages.Load (import graph): %v", err)
+	}
+	probe := &Interp{canInterp: map[string]bool{}}
+	set := map[string]bool{"runtime": true}
+	for _, p := range pats {
+		set[p] = true
+	}
+	packages.Visit(initial, nil, func(p *packages.Package) {
+		if probe.interpretable(p.PkgPath) {
+			set[p.PkgPath] = true
+		}
+	})
+	var out []string
+	for p := range set {
+		out = append(out, p)
+	}
+	sort.Strings(out)
+	return out
 }
